@@ -99,6 +99,10 @@ def _nonlin_solver(fcn, x0, params,
 
         dx_norm = dx.norm()
         if dx_norm == 0:
+            if y_norm == 0:
+                # the current point is an exact root: nothing left to do
+                converge = True
+                break
             raise ValueError("Jacobian inversion yielded zero vector. "
                              "This indicates a bug in the Jacobian "
                              "approximation.")
